@@ -42,8 +42,12 @@ class ThreadHarness:
         ct = self.ct
         topo = scen.Topology(scen.CONN_TYPES[ct], framing=self.framing)
         # "pool-line": line pre-emption inside connection_pool.py only (few enough points for pre-emption bound 2)
-        w = TWorld(chooser, topo.router, granularity="line" if self.granularity == "pool-line" else self.granularity,
-                   trace_files=POOL_ONLY if self.granularity == "pool-line" else TRACE_FILES)
+        # "waiter-line": line pre-emption only inside the PoolRequest methods (assign / clear / wait), where a lost
+        # wake-up between a waiter's check and its wait lives; few enough points for pre-emption bound 3
+        gran = self.granularity
+        w = TWorld(chooser, topo.router, granularity="line" if gran in ("pool-line", "waiter-line") else gran,
+                   trace_files=POOL_ONLY if gran in ("pool-line", "waiter-line") else TRACE_FILES,
+                   trace_quals=("PoolRequest.",) if gran == "waiter-line" else None)
         pool = scen.make_pool(ct, w.backend, "sync", max_connections=self.mc, max_keepalive_connections=self.mk)
         N = self.mc
         mon = {"max_list": 0, "max_open": 0}
@@ -107,7 +111,7 @@ class ThreadHarness:
 
         def viol(kind, msg, **x):
             ex.violations.append(Violation("C08." + kind, f"{msg} | {desc} preempted_in={w.preempted_in} switches={w.switch_log[-12:]}",
-                                           dict(sig, kind=kind, preempted_in=sorted(set(w.preempted_in)), **x)))
+                                           dict(sig, kind=kind, **x)))
         for name, kind, tok, fn in warm:
             try:
                 r = fn()
@@ -135,7 +139,17 @@ class ThreadHarness:
                 import traceback
                 tb = traceback.extract_tb(e.__traceback__)
                 site = next((f"{f.filename.rsplit('/', 1)[-1]}:{f.name}" for f in reversed(tb) if "/httpcore/" in f.filename), "?")
-                viol("collateral-failure", f"thread {name} ({kind}) failed with {exc_class(e)}: {e} raised at {site}", exc=exc_class(e), site=site)
+                # which connection did the victim use, and which code closed it?
+                closed_by = None
+                mine = [o for o in w.net.ledger if o.task == name and o.tr is not None]
+                if mine:
+                    tr_ = mine[-1].tr
+                    closes = [o for o in w.net.ledger if o.kind == "close" and o.tr is tr_ and o.task != name]
+                    if closes:
+                        ch = closes[0].args.get("closed_from", [])
+                        closed_by = next((c for c in ch if "connection_pool.py" in c or "_response_closed" in c or "http_proxy" in c), ch[0] if ch else None)
+                viol("collateral-failure", f"thread {name} ({kind}) failed with {exc_class(e)}: {e} raised at {site}; its connection was closed by another thread from {closed_by}",
+                     exc=exc_class(e), site=site, closed_by=closed_by)
             else:
                 status, body = r[1]
                 if kind in ("req", "hold") and (status != 200 or body != b"<" + tok.encode() + b">"):
@@ -194,6 +208,10 @@ def scenarios(tier):
     out.append((S("h11", ["req:a:w", "req:a", "req:a"], max_connections=1, granularity="pool-line"), 2))
     out.append((S("h11", ["req:a", "req:a"], max_connections=1, granularity="pool-line"), 2))
     out.append((S("h11", ["hold:a", "req:a"], max_connections=1, granularity="pool-line"), 2))
+    out.append((S("h11", ["req:a:w", "req:a", "req:a"], max_connections=1, granularity="waiter-line"), 3))
+    out.append((S("h11", ["hold:a", "req:a"], max_connections=1, granularity="waiter-line"), 3))
+    if not quick:
+        out.append((S("h11", ["req:a:w", "req:a", "req:a"], max_connections=1, granularity="pool-line"), 3))
     # three threads: one holds the only connection, two queue behind it
     out.append((S("h11", ["hold:a", "req:a", "req:a"], max_connections=1, granularity="sync"), sync_bound))
     out.append((S("h11", ["req:a", "req:b", "req:a"], max_connections=2, max_keepalive=0, granularity="sync"), sync_bound))
